@@ -4,5 +4,5 @@ CONSTANTS
   Ms = {3, 4, 5}
   AllLimits = TRUE
   PoolN = 2
-INVARIANTS TypeOK WriteBound ReadBound NoLimit EvCovers EvValid DeathIffNoPush SplOrder
+INVARIANTS StepProps
 CHECK_DEADLOCK FALSE
